@@ -59,6 +59,7 @@ THEOREMS = [
     "JanetModel.Props.C11.jdn_printer_shape",
     "JanetModel.Props.C11.insert_preserves_wf",
     "JanetModel.Props.C11.wf_reachable_with_insert",
+    "JanetModel.Props.C11.status_produce_pure_with_insert",
     "JanetModel.Props.C11.error_latch",
     "JanetModel.Props.C11.dead_latch",
     "JanetModel.Props.C11.latch_release",
@@ -593,7 +594,7 @@ def run(ctx, replay_lines=None):
                 sig = "jdn-roundtrip:" + " ".join(mt)[:60]
             else:
                 sig = "jdn-refused-data:" + " ".join(mt)[:60]
-            if sig in rt_reported:
+            if sig in rt_reported or len(rt_reported) >= 3:
                 continue
             rt_reported.add(sig)
             ctx.violation(sig, {"kind": "jdn-roundtrip", "lines": ["rt " + " ".join(mt)], "observed": mo, "original": l, "original_observed": o},
